@@ -1,10 +1,5 @@
 #!/bin/bash
-# Offline set-up: puts icontract (pure Python) beside the repository's interpreter, under /verif/.deps (git-ignored).
-# The checks do not depend on this step succeeding: without icontract the same named conditions are evaluated by
-# vmon's own wrappers.
+# Offline set-up. The framework is pure Python on top of the repository's own interpreter (/venv/bin/python: numpy, pytest);
+# nothing has to be built or installed. This script only verifies that geometer imports from the working tree under VERIF_REPO.
 cd "$(dirname "$(readlink -f "$0")")/.."
-if [ ! -d .deps/icontract ]; then
-  PIP_NO_INDEX=1 /venv/bin/python -m pip install --quiet --no-index --find-links /opt/veriftools/wheels --no-deps \
-     --target .deps icontract asttokens six typing_extensions || echo "setup: icontract not installed (optional)"
-fi
-/venv/bin/python -c "import sys; sys.path.insert(0,'/verif'); import vmon; vmon.setup_paths(); print('setup ok')"
+/venv/bin/python -c "import sys; sys.path.insert(0, '$PWD'); import vmon; g = vmon.setup_paths(); print('setup ok: geometer from', g.__file__)"
